@@ -146,7 +146,7 @@ package ast
 //@   requires t != nil && f != nil && cloinv(f) && parsley.GhostLo <= t.readerPos && t.readerPos <= parsley.GhostHi
 //@   ensures  [once;C10] ncalls() == 1 && callarg[parsley.Pos](1, 0) == old(t.readerPos) && t.readerPos == callres[parsley.Pos](1, 0)
 //@   ensures  [moved;C10] old(t.readerPos) <= t.readerPos && t.readerPos <= parsley.GhostHi && cloinv(f)
-//@   ensures  [others] othersKept()
+//@   ensures  [others] OthersKept()
 //@   assigns  t.readerPos, captures(f)
 //@ callee f(pos parsley.Pos) (np parsley.Pos)
 //@   include ast.rpcallback
@@ -157,14 +157,14 @@ package ast
 //@   requires n != nil && f != nil && cloinv(f) && parsley.GhostLo <= n.readerPos && n.readerPos <= parsley.GhostHi
 //@   ensures  [once;C10] ncalls() == 1 && callarg[parsley.Pos](1, 0) == old(n.readerPos) && n.readerPos == callres[parsley.Pos](1, 0)
 //@   ensures  [moved;C10] old(n.readerPos) <= n.readerPos && n.readerPos <= parsley.GhostHi && cloinv(f)
-//@   ensures  [others] othersKept()
+//@   ensures  [others] OthersKept()
 //@   assigns  n.readerPos, captures(f)
 //@ callee f(pos parsley.Pos) (np parsley.Pos)
 //@   include ast.rpcallback
 
 //@ -- what SetReaderPos needs of, and keeps for, a node: well-formed and ending inside the active window
 //@ -- moving ends forward inside the window keeps every well-formed node well-formed and inside the window
-//@ pure func othersKept() bool = forall m parsley.Node :: old(m != nil && parsley.NodeOK(m) && within(m)) ==> parsley.NodeOK(m) && within(m)
+//@ pure func OthersKept() bool = forall m parsley.Node :: old(m != nil && parsley.NodeOK(m) && within(m)) ==> parsley.NodeOK(m) && within(m)
 //@ pure func rpOK(n ReaderPosSetter) bool = typeis[parsley.Node](n) ==> parsley.NodeOK(n.(parsley.Node)) && within(n.(parsley.Node))
 //@ -- (assumption on node types defined outside this repository: a well-formed node can have its end moved;
 //@ --  for the node types of the repository this is lemma settable_repo below)
@@ -176,7 +176,7 @@ package ast
 //@ interface ast.ReaderPosSetter.SetReaderPos(n ReaderPosSetter, f func(parsley.Pos) parsley.Pos)
 //@   requires n != nil && f != nil && cloinv(f) && rpOK(n)
 //@   ensures  cloinv(f) && rpOK(n)
-//@   ensures  [others] othersKept()
+//@   ensures  [others] OthersKept()
 //@   ensures  [list-kept;C07] typeis[NodeList](n) ==> len(n.(NodeList)) == old(len(n.(NodeList)))
 //@   assigns  fields[parsley.Node](), elems[NodeList](), captures(f)
 
@@ -185,7 +185,7 @@ package ast
 //@   requires node != nil && parsley.NodeOK(node) && within(node) && f != nil && cloinv(f)
 //@   ensures  [kind;C10] r != nil && (typeis[EmptyNode](node) ==> typeis[EmptyNode](r)) && (!typeis[EmptyNode](node) ==> same(r, node))
 //@   ensures  [ok] parsley.NodeOK(r) && within(r) && cloinv(f)
-//@   ensures  [others] othersKept()
+//@   ensures  [others] OthersKept()
 //@   ensures  [moved;C10] typeis[EmptyNode](node) ==> node.ReaderPos() <= r.ReaderPos()
 //@   assigns  fields[parsley.Node](), elems[NodeList](), captures(f)
 //@ callee f(pos parsley.Pos) (np parsley.Pos)
@@ -195,15 +195,17 @@ package ast
 //@   props C07,C10
 //@   requires wfList(nl) && within(nl) && f != nil && cloinv(f)
 //@   ensures  wfList(nl) && within(nl) && cloinv(f)
-//@   ensures  [others] othersKept()
+//@   ensures  [others] OthersKept()
 //@   assigns  fields[parsley.Node](), elems[NodeList](), captures(f)
 //@   flag slow
 //@   assert_at entry [nalts] parsley.NAlts(parsley.Node(nl)) == len(nl)
 //@   assert_at entry [alts] forall k int :: 0 <= k && k < len(nl) ==> same(parsley.Alt(parsley.Node(nl), k), nl[k])
+//@   assert_at call#1 [kept] parsley.NodeOK(parsley.Node(nl)) && within(parsley.Node(nl))
+//@   assert_at call#1 [kept-elems] forall k int :: 0 <= k && k < len(nl) ==> parsley.GhostLo <= nl[k].ReaderPos() && nl[k].ReaderPos() <= parsley.GhostHi
 //@ loop 1 (i rangeindex)
 //@   invariant 0 <= i && i <= len(nl) && cloinv(f)
 //@   invariant wfList(nl)
 //@   invariant [lo] forall k int :: 0 <= k && k < len(nl) ==> parsley.GhostLo <= nl[k].ReaderPos() && nl[k].ReaderPos() <= parsley.GhostHi
-//@   invariant [others] othersKept()
+//@   invariant [others] OthersKept()
 //@ callee f(pos parsley.Pos) (np parsley.Pos)
 //@   include ast.rpcallback
